@@ -1983,7 +1983,7 @@ fn nthreads() -> usize {
 }
 
 fn run_pool(cat: &Cat, tier: Tier, part: &str) -> Report {
-	let dir = std::env::temp_dir().join(format!("gv-c11-{}-{}", std::process::id(), part));
+	let dir = std::path::Path::new(&crate::uni::scratch_base()).join(format!("gv-c11-{}-{}", std::process::id(), part));
 	let _ = std::fs::remove_dir_all(&dir);
 	std::fs::create_dir_all(&dir).expect("pool dir");
 	std::fs::write(dir.join("cat.json"), serde_json::to_vec(cat).unwrap()).expect("write catalogue");
